@@ -104,7 +104,7 @@ class CappedStream:
 
 
 def run_reader(stream, pf=7, qe=1, parsing=True, validate=1, msgmode=0, handler=True, bf=True,
-               sock_events=None, bufsize=4096, sock_end="close", max_items=100000, readcap=None):
+               sock_events=None, bufsize=4096, sock_end="close", max_items=100000, readcap=None, logcfg=None):
     """Iterate the real UBXReader.  Returns a dict of observations.
     stream: bytes (file-like run) or None when sock_events is given."""
     global _rec
@@ -120,6 +120,10 @@ def run_reader(stream, pf=7, qe=1, parsing=True, validate=1, msgmode=0, handler=
     lg.addHandler(cap)
     lg.setLevel(logging.DEBUG)
     lg.propagate = False
+    if logcfg == "critical":          # an application that silences the library's logger
+        lg.setLevel(logging.CRITICAL + 10)
+    elif logcfg == "disabled":
+        logging.disable(logging.CRITICAL)
     _rec = []
     items = []
     raised = None
@@ -177,6 +181,8 @@ def run_reader(stream, pf=7, qe=1, parsing=True, validate=1, msgmode=0, handler=
         table = _rec
         _rec = None
         lg.removeHandler(cap)
+        if logcfg == "disabled":
+            logging.disable(logging.NOTSET)
         lg.setLevel(old_level)
         lg.propagate = old_prop
     if not handler:
